@@ -73,6 +73,9 @@ def pairing(ctx, rule, only=None):
                            why='contents change while the cached volume keeps its old value',
                            key=f"no volume recompute for {okey}")
                     continue
+                if m.name == '__init__' and all(_empty(w[2]) for w in writes) and \
+                        const_value(strip_refs(final)) in (0, 0.0) and not isinstance(const_value(strip_refs(final)), bool):
+                    continue        # an exit of the constructor with the empty contents and volume 0 it started from
                 ok, fact = classify_volume(final, obj, okey, cver, writes, ff)
                 ctx.ob(rule, m, getattr(final, 'lineno', ex.line), inst, ok, fact=fact,
                        why='the stored volume is not recomputed from the final contents of the same container',
